@@ -57,15 +57,16 @@ def rtask(idx, sleep_ms, logpath, fail=None):
     return ("r", idx, idx % 3)
 
 
-def nest(level, depth, path, logpath, sleep_ms=5):
-    """Nested Parallel calls that leave the backend unspecified."""
+def nest(level, depth, path, logpath, sleep_ms=5, prefer=None):
+    """Nested Parallel calls that leave the backend unspecified (optionally with the soft hint `prefer`)."""
     import threading
 
     from joblib import Parallel, delayed
     _log(logpath, "N %d %s %d %d" % (level, path, os.getpid(), threading.get_ident()))
     time.sleep(sleep_ms / 1000.0)
     if level < depth:
-        Parallel(n_jobs=2)(delayed(nest)(level + 1, depth, "%s.%d" % (path, i), logpath, sleep_ms) for i in range(2))
+        kw = {"prefer": prefer} if prefer else {}
+        Parallel(n_jobs=2, **kw)(delayed(nest)(level + 1, depth, "%s.%d" % (path, i), logpath, sleep_ms, prefer) for i in range(2))
     return path
 
 
@@ -84,6 +85,10 @@ def die_now(kind):
         os.abort()
     elif kind == "exit0":
         os._exit(0)
+    elif kind in ("SIGBUS", "SIGUSR1"):
+        os.kill(os.getpid(), getattr(signal, kind))
+    elif kind.startswith("SIGRT+"):
+        os.kill(os.getpid(), signal.SIGRTMIN + int(kind[6:]))
     else:
         os._exit(1)
     time.sleep(5)   # signal delivery
